@@ -34,18 +34,3 @@ def c11_if_statement_merge(case, what):
     if what.startswith("disagreement:") or not what.endswith(_RESIDUAL):
         return False
     return _unsafe_if_statement(_function_part(case.get("text", "")))
-
-
-@known_predicate
-def c11_empty_loop_computed_subscript(case, what):
-    if what != "generate raised RuntimeError":
-        return False
-    txt = case.get("text", "")
-    for m in re.finditer(r"for (\w+) in (\d+):(\d+) loop\n(.*?)end for;", txt, re.S):
-        i, a, b, body = m.group(1), int(m.group(2)), int(m.group(3)), m.group(4)
-        if a > b:
-            for sub in re.findall(r"\[([^\]]*)\]", body):
-                parts = [p.strip() for p in sub.split(",")]
-                if any(re.search(r"\b%s\b" % re.escape(i), p) and p != i for p in parts):
-                    return True
-    return False
